@@ -2,6 +2,8 @@ import Frp.Driver.Proto
 import Frp.Model.Backoff
 import Frp.Model.Watchdog
 import Frp.Model.Reconnect
+import Frp.Model.SessEnd
+import Frp.Model.Rereg
 import Frp.Props.C14
 /-
   Driver engine "wait" (C14): replays the harness trace of the real back-off manager, the real
@@ -30,8 +32,8 @@ structure WaitState where
   sts    : List Backoff.St := []          -- states compatible with what was observed so far
   prev   : Nat := 0
   shorts : List Nat := []                 -- times (ns) of observed delays shorter than any non-fast delay
-  wds    : List (String × Nat × Bool) := []    -- id ↦ (T seconds, heartbeat scope)
-  cws    : List (String × Nat × Nat × List String) := []   -- id ↦ (I, T, script)
+  wds    : List (String × Nat × Bool × String) := []    -- id ↦ (T seconds, heartbeat scope, script)
+  cws    : List (String × Nat × Nat × String × List String) := []   -- id ↦ (I, T, initial proxy set, script)
 
 def nats (ts : List String) : Option (List Nat) := ts.mapM String.toNat?
 
@@ -196,41 +198,108 @@ def parseSent (s : String) : Option (List (Nat × Bool)) :=
 /-- closure tolerance below the bound (the harness' `t0` is read after the server stored lastPing) -/
 def earlyTolUs : Nat := 30000
 
-def wdCheck (T : Nat) (scope : Bool) (closed : Bool) (c : Nat) (sent : List (Nat × Bool)) (pok perr : Nat) :
-    Option String × Bool :=
+/-- one item of the scripted client: ping (valid / wrong key), NewProxy held at a phase, cut -/
+inductive WdItem
+  | ping
+  | newProxy (phase : Nat) (hold : Nat)     -- phase 0..3 = plug / checked / ran / added
+  | cut
+
+def parseWdItem (s : String) : Option WdItem :=
+  match s.toList with
+  | 'v' :: _ => some .ping
+  | 'i' :: _ => some .ping
+  | 'x' :: _ => some .cut
+  | 'n' :: rest =>
+    match (String.ofList rest).splitOn "/" with
+    | [_, ph, hold] =>
+      let phase := match ph with | "p" => some 0 | "c" => some 1 | "r" => some 2 | "a" => some 3 | _ => none
+      match phase, hold.toNat? with
+      | some p, some h => some (.newProxy p h)
+      | _, _ => none
+    | _ => none
+  | _ => none
+
+def parseWdScript (s : String) : Option (List WdItem) :=
+  if s = "-" then some [] else (s.splitOn ",").mapM parseWdItem
+
+/-- the schedule of the session model that the scripted scenario produces: the first `sentN`
+    registrations are written, read and run; a held one is overtaken by the end of the connection
+    (silence ⇒ watchdog, or cut) at its hold point; then the read fails and `worker()` walks -/
+def wdSchedule (items : List WdItem) (sentN : Nat) : List SessEnd.Lbl := Id.run do
+  let mut ls : List SessEnd.Lbl := []
+  let mut j := 0
+  let mut cutDone := false
+  for it in items do
+    match it with
+    | .newProxy ph hold =>
+      if j < sentN then
+        ls := ls ++ [.send (.newProxy j), .read false] ++ List.replicate ph (.adv false)
+        if hold > 0 ∧ !cutDone then
+          ls := ls ++ [.cut]
+          cutDone := true
+        ls := ls ++ List.replicate (4 - ph) (.adv false)
+        j := j + 1
+    | .ping => ls := ls ++ [.send .other, .read false]
+    | .cut => pure ()
+  return ls ++ (if cutDone then [] else [.cut]) ++ [.read true, .teardown]
+
+/-- `j:resp:rereg` -/
+def wdParsePx (s : String) : Option (List (String × String)) :=
+  if s = "-" then some [] else
+  (s.splitOn ",").mapM (fun it =>
+    match it.splitOn ":" with
+    | [_, r1, r2] => some (r1, r2)
+    | _ => none)
+
+def wdCheck (T : Nat) (scope : Bool) (items : List WdItem) (kind : String) (c : Nat) (sent : List (Nat × Bool))
+    (pok perr : Nat) (px : List (String × String)) : Option String × Bool :=
   let Tus := T * 1000000
   let cfg := Watchdog.serverCfg (Int.ofNat T) 1000000
   -- valid = plugin chain + VerifyPing pass: with the HeartBeats scope the key must match
   let evs : List (Nat × Watchdog.Ev) := sent.map (fun (t, good) => (t, Watchdog.Ev.beat (good || !scope)))
   let st := Watchdog.run cfg { last := 0 } evs
   let last := st.last
-  let prop := C14.detectHolds Tus 1000000 slackUs earlyTolUs last (if closed then some c else none) c
+  let hasCut := items.any (fun i => match i with | .cut => true | _ => false)
+  -- closed by the server: in (last+T, last+T+P+slack];  cut by the script: the watchdog was not yet due
+  let propT :=
+    if kind = "cut" then C14.detectHolds Tus 1000000 slackUs earlyTolUs last none c
+    else C14.detectHolds Tus 1000000 slackUs earlyTolUs last (if kind = "closed" then some c else none) c
+  -- a session that is over holds nothing: the fresh session's registrations are accepted
+  let model := SessEnd.run (SessEnd.init C14.codeAsync) (wdSchedule items px.length)
+  let modelFree := model.torn && decide (SessEnd.Released model)
+  let propR := px.all (fun x => x.2 == "ok")
   -- pongs: one per ping that was answered before the close; errors only for invalid pings
   let nValid := (evs.filter (fun e => e.2 == Watchdog.Ev.beat true)).length
   let nInvalid := evs.length - nValid
+  let held := items.any (fun i => match i with | .newProxy _ h => h > 0 | _ => false)
   let problem :=
-    if !closed then some "expected-closed"
-    else if !prop then some s!"closed-in({last + Tus},{last + Tus + 1000000}+slack]"
+    if kind = "open" then some "expected-closed"
+    else if kind = "cut" ∧ !hasCut then some "unexpected-cut"
+    else if !propT then some s!"closed-in({last + Tus},{last + Tus + 1000000}+slack]"
+    else if modelFree ∧ !propR then some "torn-down-session-holds-nothing"
+    else if !modelFree then some "model-not-released"
     else if pok > nValid ∨ perr > nInvalid then some s!"pongs≤{nValid}/{nInvalid}"
-    else if pok + 1 < nValid then some s!"pongs-ok≥{nValid}-1"
+    else if !held ∧ pok + 1 < nValid then some s!"pongs-ok≥{nValid}-1"
     else none
-  (problem, prop)
+  (problem, propT && propR)
 
 def wdStep (st : WaitState) (id : String) (impl : String) : WaitState × Verdict :=
   match st.wds.lookup id with
   | none => (st, verdictOf "unknown" impl)
-  | some (T, scope) =>
+  | some (T, scope, script) =>
     let st' := { st with wds := st.wds.filter (·.1 ≠ id) }
-    match impl.splitOn " " with
-    | [k, c, sent, pok, perr] =>
-      match c.toNat?, parseSent (sent.drop 5).toString, (pok.drop 4).toString.toNat?, (perr.drop 5).toString.toNat? with
-      | some c, some sent, some pok, some perr =>
-        let (problem, prop) := wdCheck T scope (k == "closed") c sent pok perr
+    match impl.splitOn " ", parseWdScript script with
+    | [k, c, sent, pok, perr, px], some items =>
+      match c.toNat?, parseSent (sent.drop 5).toString, (pok.drop 4).toString.toNat?, (perr.drop 5).toString.toNat?,
+            wdParsePx (px.drop 3).toString with
+      | some c, some sent, some pok, some perr, some px =>
+        let (problem, prop) := wdCheck T scope items k c sent pok perr px
         match problem with
         | none => (st', verdictOf impl impl (some prop))
         | some p => (st', verdictOf p impl (some prop))
-      | _, _, _, _ => (st', .bad "wd-result")
-    | _ =>
+      | _, _, _, _, _ => (st', .bad "wd-result")
+    | _, none => (st', .bad "wd-script")
+    | _, _ =>
       if impl.startsWith "infra" then (st', .skip "infra") else (st', verdictOf "closed …" impl (some false))
 
 /-! ### client watchdog + re-login loops -/
@@ -238,26 +307,72 @@ def wdStep (st : WaitState) (id : String) (impl : String) : WaitState × Verdict
 def msToNs (ms : Nat) : Nat := ms * 1000000
 
 /-- one connection record of the scripted server: kind, gap before the login (ms), time from the last
-    good pong / error pong to the close (ms), gaps between pings (ms) -/
+    good pong / error pong to the close (ms), gaps between pings (ms), registered-proxy snapshots -/
 structure ConnRec where
   kind  : String
   gap   : Nat
   close : Nat := 0
   pings : List Nat := []
+  snaps : List String := []
 
 def parseConn (s : String) : Option ConnRec :=
   match s.splitOn ":" with
-  | ["r", g] => g.toNat?.map (fun g => ⟨"r", g, 0, []⟩)
-  | [k, g, c, pg] =>
+  | ["r", g] => g.toNat?.map (fun g => ⟨"r", g, 0, [], []⟩)
+  | [k, g, c, pg, sn] =>
     match g.toNat?, c.toNat? with
     | some g, some c =>
       let ps := if pg = "-" then some [] else (pg.splitOn "/").mapM String.toNat?
-      ps.map (fun ps => ⟨k, g, c, ps⟩)
+      ps.map (fun ps => ⟨k, g, c, ps, sn.splitOn ";"⟩)
     | _, _ => none
   | _ => none
 
-def cwCheck (I T : Nat) (script : List String) (recs : List ConnRec) : Option String × Bool := Id.run do
+/-- `0` | `a1+b2+…` → configurations (name = letter code, variant = the digits) -/
+def cwParseSet (s : String) : Option (List Wrapper.Cfg) :=
+  if s = "0" then some [] else
+  (s.splitOn "+").mapM (fun e =>
+    match e.toList with
+    | c :: ds => (String.ofList ds).toNat?.map (fun v => ({ name := c.toNat, variant := v, health := false, runFails := false } : Wrapper.Cfg))
+    | [] => none)
+
+def cwInsertNV (x : Nat × Nat) : List (Nat × Nat) → List (Nat × Nat)
+  | [] => [x]
+  | y :: ys => if x.1 ≤ y.1 then x :: y :: ys else y :: cwInsertNV x ys
+
+def cwRenderView (v : List (Nat × Nat)) : String :=
+  if v.isEmpty then "0" else
+  "+".intercalate ((v.foldr cwInsertNV []).map (fun x => s!"{Char.ofNat x.1}{x.2}"))
+
+def cwParseView (s : String) : Option (List (Nat × Nat)) :=
+  (cwParseSet s).map (fun l => l.map (fun c => (c.name, c.variant)))
+
+/-- script item: connection kind + reloads (outage?, set) in script order -/
+structure CwItem where
+  kind : String
+  inConn : List (List Wrapper.Cfg) := []
+  outage : List (List Wrapper.Cfg) := []
+
+def parseCwItem (s : String) : Option CwItem :=
+  match s.splitOn "@" with
+  | [] => none
+  | c :: rls => do
+    let mut it : CwItem := { kind := (c.take 1).toString }
+    for r in rls do
+      match r.splitOn ":" with
+      | [w, set] =>
+        let cf ← cwParseSet set
+        if w.startsWith "o" then it := { it with outage := it.outage ++ [cf] }
+        else it := { it with inConn := it.inConn ++ [cf] }
+      | _ => none
+    pure it
+
+def cwCtlView (s : Rereg.St) : List (Nat × Nat) :=
+  match s.ctl with
+  | some c => Rereg.view c.pm
+  | none => []
+
+def cwCheck (I T : Nat) (set0 : List Wrapper.Cfg) (script : List CwItem) (recs : List ConnRec) : Option String × Bool := Id.run do
   let mut s := Reconnect.init
+  let mut rs : Rereg.St := (Rereg.step { early := C14.codeEarly, store := set0 } 0 .loopStart).1
   let mut problem : Option String := none
   let mut prop := true
   let mut k := 0
@@ -266,8 +381,9 @@ def cwCheck (I T : Nat) (script : List String) (recs : List ConnRec) : Option St
   let slackMs := 400
   if recs.length ≠ script.length then problem := some s!"conns={recs.length}≠{script.length}"
   for r in recs do
-    let item := script.getD k "?"
-    if r.kind ≠ (item.take 1).toString then problem := problem <|> some s!"conn{k}:kind"
+    let item := script.getD k { kind := "?" }
+    let okKind := r.kind = item.kind ∨ (item.kind = "b" ∧ r.kind = "p") ∨ (item.kind = "c" ∧ r.kind = "p")
+    if ¬ okKind then problem := problem <|> some s!"conn{k}:kind"
     -- the wait before this login attempt
     match prevEv with
     | none =>
@@ -287,6 +403,27 @@ def cwCheck (I T : Nat) (script : List String) (recs : List ConnRec) : Option St
     else
       s := Reconnect.loginOk s
       prevEv := some .sessionEnded
+      -- the login registers the configuration in force; every reload while connected re-syncs it
+      rs := (Rereg.step rs 0 .loginRun).1
+      rs := (Rereg.step rs 0 .loginSwap).1
+      let mut expect : List (List Wrapper.Cfg × List (Nat × Nat)) := [(rs.store, cwCtlView rs)]
+      for cf in item.inConn do
+        rs := (Rereg.step rs 0 (.reload cf)).1
+        expect := expect ++ [(rs.store, cwCtlView rs)]
+      if r.snaps.length ≠ expect.length then problem := problem <|> some s!"conn{k}:snapshots={expect.length}"
+      let mut q := 0
+      for sn in r.snaps do
+        if sn ≠ "~" then
+          match expect[q]? with
+          | some (store, v) =>
+            if cwRenderView v ≠ sn then problem := problem <|> some s!"conn{k}:registered[{q}]={cwRenderView v}"
+            match cwParseView sn with
+            | some iv => if !C14.regHolds store iv then prop := false
+            | none => problem := problem <|> some s!"conn{k}:snapshot-syntax"
+          | none => pure ()
+        q := q + 1
+      rs := (Rereg.step rs 0 .sessionEnd).1
+      rs := (Rereg.step rs 0 .loopStart).1
       -- pings: first at once, then every I seconds (never later than I + slack)
       let mut j := 0
       for g in r.pings do
@@ -303,28 +440,33 @@ def cwCheck (I T : Nat) (script : List String) (recs : List ConnRec) : Option St
         if !ok then
           problem := problem <|> some s!"conn{k}:close∈({T * 1000},{T * 1000 + 1000}+slack]ms"
           prop := false
-      else
+      else if r.kind = "b" then
         -- pong with error: closed at once
         if r.close > slackMs then
           problem := problem <|> some s!"conn{k}:bad-pong-not-closing"
           prop := false
       now := now + msToNs r.close
+    for cf in item.outage do
+      rs := (Rereg.step rs 0 (.reload cf)).1
     k := k + 1
   return (problem, prop)
 
 def cwStep (st : WaitState) (id : String) (impl : String) : WaitState × Verdict :=
   match st.cws.lookup id with
   | none => (st, verdictOf "unknown" impl)
-  | some (I, T, script) =>
+  | some (I, T, set0, script) =>
     let st' := { st with cws := st.cws.filter (·.1 ≠ id) }
     if impl.startsWith "infra" then (st', .skip "infra") else
-    match (impl.splitOn ",").mapM parseConn with
-    | some recs =>
-      let (problem, prop) := cwCheck I T script recs
-      match problem with
-      | none => (st', verdictOf impl impl (some prop))
-      | some p => (st', verdictOf p impl (some prop))
-    | none => (st', verdictOf "connection-records" impl (some false))
+    match cwParseSet set0, script.mapM parseCwItem with
+    | some set0, some items =>
+      match (impl.splitOn ",").mapM parseConn with
+      | some recs =>
+        let (problem, prop) := cwCheck I T set0 items recs
+        match problem with
+        | none => (st', verdictOf impl impl (some prop))
+        | some p => (st', verdictOf p impl (some prop))
+      | none => (st', verdictOf "connection-records" impl (some false))
+    | _, _ => (st', .bad "cw-script")
 
 def waitStep (st : WaitState) (tok : List String) (impl : String) : WaitState × Verdict :=
   match tok with
@@ -342,14 +484,14 @@ def waitStep (st : WaitState) (tok : List String) (impl : String) : WaitState ×
       | some o => untilStep st o script impl
       | none => (st, .bad "until")
     | [] => (st, .bad "until")
-  | ["wdstart", id, T, scope, _script] =>
+  | ["wdstart", id, T, scope, script] =>
     match T.toNat? with
-    | some T => ({ st with wds := (id, T, scope = "1") :: st.wds }, verdictOf "started" impl)
+    | some T => ({ st with wds := (id, T, scope = "1", script) :: st.wds }, verdictOf "started" impl)
     | none => (st, .bad "wdstart")
   | ["wdwait", id] => wdStep st id impl
-  | ["cwstart", id, I, T, script] =>
+  | ["cwstart", id, I, T, set0, script] =>
     match I.toNat?, T.toNat? with
-    | some I, some T => ({ st with cws := (id, I, T, script.splitOn ",") :: st.cws }, verdictOf "started" impl)
+    | some I, some T => ({ st with cws := (id, I, T, set0, script.splitOn ",") :: st.cws }, verdictOf "started" impl)
     | _, _ => (st, .bad "cwstart")
   | ["cwwait", id] => cwStep st id impl
   | _ => (st, .bad "op")
